@@ -161,8 +161,9 @@ pub proof fn lemma_hyrax_state_prefix(s: SS, vk: &HyraxUniversalParams, coms: Se
     decreases k
 { if k > 0 { lemma_hyrax_state_prefix(s, vk, coms, pt, p1, p2, (k - 1) as nat); } }
 // the i-th generator: hash-to-curve of (PROTOCOL_NAME, i[, j]), cofactor cleared - a deterministic function of i  [the sampling closure is outside the verified text]
-pub uninterp spec fn hyrax_gen(i: nat) -> AS;
-#[verifier::external_body] pub fn hyrax_sample_point(i: u64) -> (g: G1) ensures g@ == hyrax_gen(i as nat) { unimplemented!() }
+//@use h2c
+//@spec h2c_spec
+pub open spec fn hyrax_gen(i: nat) -> AS { h2c_gen(i) }
 pub struct HyraxPC;
 impl HyraxPC {
 //@stub from=hyrax.rs id=hyrax.pedersen_commit
@@ -231,6 +232,7 @@ impl HyraxPC {
 //@end
 
 //@fn id=hyrax.setup file=poly-commit/src/hyrax/mod.rs scope="impl<G, P> PolynomialCommitment<G::ScalarField, P> for HyraxPC<G, P>" name=setup props=C09,C19,C17
+    #[verifier::exec_allows_no_decreases_clause]
     fn setup(_max_degree: usize, num_vars: Option<usize>, _rng: &mut Rng) -> (res: Result<HyraxUniversalParams, Error>)
     requires
         num_vars is Some ==> num_vars->Some_0 < 126,
@@ -241,10 +243,37 @@ impl HyraxPC {
         res is Ok ==> (forall|i: int| 0 <= i < res->Ok_0.com_key@.len() ==> (#[trigger] res->Ok_0.com_key@[i])@ == hyrax_gen(i as nat))
             && res->Ok_0.h@ == hyrax_gen(res->Ok_0.com_key@.len()),   // name=hyrax.setup.generators_derived_from_index props=C09
 //@body
-//@rw 1 /(?s)ark_std::cfg_into_iter!\(0u64\.\.dim \+ 1\)\s*\.map\(\|i\| \{.*?point\.mul_by_cofactor_to_group\(\)\s*\}\)/ => (0u64..dim + 1).map(|i: u64| -> (g: G1) ensures g@ == hyrax_gen(i as nat) { hyrax_sample_point(i) })
+//@rw 1 /(?s)let points: Vec<_> = ark_std::cfg_into_iter!\(0u64\.\.dim \+ 1\)\s*\.map\(\|i\| \{(.*?)\n            \}\)\s*\.collect\(\);/ => let mut points: Vec<G1> = Vec::new();
+        let mut i__o: u64 = 0;
+        while i__o < dim + 1
+            invariant i__o <= dim + 1, dim < 0x8000_0000_0000_0000, points@.len() == i__o, forall|q: int| 0 <= q < points@.len() ==> (#[trigger] points@[q])@ == hyrax_gen(q as nat),
+        {
+            let ghost pts0 = points@;
+            let i = i__o;
+            let gp__: G1 = {\1
+            };
+            points.push(gp__);
+            proof { assert forall|q: int| 0 <= q < points@.len() implies (#[trigger] points@[q])@ == hyrax_gen(q as nat) by { if q < i__o { assert(points@[q] == pts0[q]); } } }
+            ctr_inc_u64(&mut i__o);
+        }
+//@rw * /\[PROTOCOL_NAME, &(\w+)\.to_le_bytes\(\)\]\.concat\(\)\.as_slice\(\)/ => bytes_concat2(protocol_name(), &u64_to_le_bytes(\1)).as_slice()
+//@rw * /PROTOCOL_NAME\.to_vec\(\)/ => protocol_name()
+//@rw * /bytes\.extend\((\w+)\.to_le_bytes\(\)\);/ => bytes_extend(&mut bytes, &u64_to_le_bytes(\1));
+//@rw * /Blake2s256::digest\(/ => digest(
+//@rw * /G::from_random_bytes\(/ => from_random_bytes(
+//@rw 1 /j \+= 1;/ => ctr_inc_u64(&mut j);
+//@rw 1 /point\.mul_by_cofactor_to_group\(\)/ => mul_by_cofactor_to_group(point)
+//@loop 1 kw=while
+                    invariant j as nat == tt, p == attempt(i, tt), forall|t2: nat| t2 < tt ==> attempt(i, t2) is None,
+//@beforeloop 1
+                let ghost mut tt: nat = 0;
+//@loopend 1
+                    proof { tt = tt + 1; }
+//@before /let point = p\.unwrap\(\);/
+                proof { assert(first_hit(i, tt)); lemma_first_hit_unique(i, tt); }
 //@rw 1 /let dim = 1 << n \/ 2;/ => proof { vstd::arithmetic::power2::lemma_pow2_strictly_increases((n / 2) as nat, 63); vstd::arithmetic::power2::lemma_pow2_strictly_increases(63, 64); vstd::arithmetic::power2::lemma2_to64(); vstd::arithmetic::power2::lemma_pow2_pos((n / 2) as nat); vstd::bits::lemma_u64_shl_is_mul(1u64, (n / 2) as u64); }
         let dim: u64 = 1 << n / 2;
-//@rw 1 /let points: Vec<_> =/ => let points: Vec<G1> =
+        proof { vstd::arithmetic::power2::lemma2_to64_rest(); vstd::arithmetic::power2::lemma_pow2_strictly_increases((n / 2) as nat, 63); assert(dim as nat == vstd::arithmetic::power2::pow2((n / 2) as nat)); assert(dim < 0x8000_0000_0000_0000); }
 //@rw 1 /G::Group::normalize_batch/ => G1::normalize_batch
 //@rw 1 /let h: G = points\.pop\(\)\.unwrap\(\);/ => let h: G1Affine = points.pop().unwrap_abort();
 //@end
